@@ -1,0 +1,86 @@
+//go:build verif
+
+package jsonapi
+
+// Contracts for marshaling (C04, C03, C11). The statements about the JSON text
+// are made on the values handed to encoding/json (cut points before the calls
+// of json.Marshal): the encoder emits exactly the keys of a map, in sorted
+// order, and the elements of a slice in order (assumed of encoding/json).
+
+//@ uninterp R_meta(`Int`, MetaHolder) map[string]any
+
+//@ interface MetaHolder.Meta
+//@ ensures obs: result == R_meta($rh, self)
+
+//@ spec inList(s []string, x string) = exists j int :: 0 <= j && j < len(s) && s[j] == x
+
+//@ func buildSelfLink
+//@ props C03 C04
+//@ requires res: res != nil
+//@ modifies new[string]
+
+//@ func buildRelationshipLinks
+//@ props C03 C04
+//@ requires res: res != nil
+//@ modifies new[string], new[map[string]string]
+//@ ensures fresh: result != nil && fresh(result)
+//@ ensures keys: forall k string :: (k in result) == (k == "self" || k == "related")
+
+//@ spec listOf(m map[string][]string, k string) = ite(k in m, m[k], zero(type[[]string]))
+//@ spec sepSl(a []string, b []string) = len(a) == 0 || len(b) == 0 || ptr(a) + len(a) <= ptr(b) || ptr(b) + len(b) <= ptr(a)
+//@ spec plBase(pl map[string]any, r Resource) = "id" in pl && pl["id"] == R_get($rh, r, "id") && "type" in pl && dyn(pl["type"]) == type[string] && str(pl["type"]) == R_type($rh, r).Name
+//@ spec sameFields(f []string) = forall j int :: 0 <= j && j < len(f) ==> f[j] == old(f[j])
+
+//@ func MarshalResource
+//@ props C04 C03 C11
+//@ requires res: r != nil
+// The to-many id lists are sorted in place: the field selection and the
+// relationship-data lists must not share memory with the resource's id lists.
+//@ requires sep-fields: forall k string :: dyn(R_get($rh, r, k)) == type[[]string] ==> sepSl(sl(R_get($rh, r, k), type[[]string]), fields)
+//@ requires sep-reldata: forall k string, t string :: dyn(R_get($rh, r, k)) == type[[]string] && t in relData ==> sepSl(sl(R_get($rh, r, k), type[[]string]), relData[t])
+//@ modifies heap[string], new[uint8], new[map[string]any], new[map[string]string], new[map[string]map[string]string], new[map[string]*json.RawMessage], new[json.RawMessage], new[[]map[string]string], new[map[string]string], new[any]
+//@ ensures fields-kept: sameFields(fields)
+//@ loop 0 invariant frame: unchanged(maps[map[string]any]) && unchanged(maps[map[string]string]) && unchanged(maps[map[string]map[string]string]) && unchanged(maps[map[string]*json.RawMessage]) && unchanged(heap[map[string]string])
+//@ loop 1 invariant frame: unchanged(maps[map[string]any]) && unchanged(maps[map[string]string]) && unchanged(maps[map[string]map[string]string]) && unchanged(maps[map[string]*json.RawMessage]) && unchanged(heap[map[string]string])
+//@ loop 2 invariant frame: unchanged(maps[map[string]any]) && unchanged(maps[map[string]string]) && unchanged(maps[map[string]map[string]string]) && unchanged(maps[map[string]*json.RawMessage]) && unchanged(heap[map[string]string])
+//@ loop 3 invariant frame: unchanged(maps[map[string]any]) && unchanged(maps[map[string]string]) && unchanged(maps[map[string]map[string]string]) && unchanged(maps[map[string]*json.RawMessage]) && unchanged(heap[map[string]string])
+//@ loop 4 invariant frame: unchanged(maps[map[string]any]) && unchanged(maps[map[string]string]) && unchanged(maps[map[string]map[string]string]) && unchanged(maps[map[string]*json.RawMessage]) && unchanged(heap[map[string]string])
+//@ loop 5 invariant frame: unchanged(maps[map[string]any]) && unchanged(maps[map[string]string]) && unchanged(maps[map[string]map[string]string]) && unchanged(maps[map[string]*json.RawMessage]) && unchanged(heap[map[string]string])
+//@ loop 6 invariant frame: unchanged(maps[map[string]any]) && unchanged(maps[map[string]string]) && unchanged(maps[map[string]map[string]string]) && unchanged(maps[map[string]*json.RawMessage]) && unchanged(heap[map[string]string])
+//@ loop 0 invariant base: plBase(mapPl, r)
+//@ loop 0 invariant keys: forall k string :: k in mapPl ==> k == "id" || k == "type"
+//@ loop 0 invariant maps: mapPl != nil && fresh(mapPl) && attrs != nil && fresh(attrs)
+//@ loop 0 invariant attrs-exact: forall a string :: (a in attrs) == (visited(a) && inList(fields, a))
+//@ loop 0 invariant attrs-values: forall a string :: a in attrs ==> attrs[a] == R_get($rh, r, a)
+//@ loop 1 invariant base: plBase(mapPl, r)
+//@ loop 1 invariant keys: forall k string :: k in mapPl ==> k == "id" || k == "type"
+//@ loop 1 invariant maps: mapPl != nil && fresh(mapPl) && attrs != nil && fresh(attrs) && loopkept(maps[map[string]any])
+//@ loop 1 invariant not-found: forall j int :: 0 <= j && j <= $idx ==> fields[j] != attr.Name
+//@ loop 2 invariant kept: loopkept(maps[map[string]any]) && sameFields(fields)
+//@ loop 2 invariant maps: mapPl != nil && fresh(mapPl) && rels != nil && fresh(rels)
+//@ loop 2 invariant rels-exact: forall n2 string :: (n2 in rels) == (visited(n2) && inList(fields, n2))
+//@ loop 3 invariant kept: loopkept(maps[map[string]any]) && sameFields(fields)
+//@ loop 3 invariant maps: mapPl != nil && fresh(mapPl) && rels != nil && fresh(rels)
+//@ loop 3 invariant not-found: include == false && (forall j int :: 0 <= j && j <= $idx ==> fields[j] != rel.FromName)
+//@ loop 4 invariant kept: loopkept(maps[map[string]any]) && sameFields(fields)
+//@ loop 4 invariant maps: mapPl != nil && fresh(mapPl) && rels != nil && fresh(rels) && s != nil && fresh(s)
+//@ loop 4 invariant no-data-yet: !("data" in s) && "links" in s && (forall j int :: 0 <= j && j <= $idx ==> $range[j] != rel.FromName)
+//@ loop 5 invariant kept: loopkept(maps[map[string]any]) && sameFields(fields)
+//@ loop 5 invariant maps: mapPl != nil && fresh(mapPl) && rels != nil && fresh(rels) && s#1 != nil && fresh(s#1)
+//@ loop 5 invariant no-data-yet: !("data" in s#1) && "links" in s#1 && (forall j int :: 0 <= j && j <= $idx ==> $range[j] != rel.FromName)
+//@ loop 6 invariant kept: loopkept(maps[map[string]any])
+//@ loop 6 invariant data: fresh(data) && len(data) == $idx + 1 && s#1 != nil && fresh(s#1) && !("data" in s#1) && "links" in s#1
+//@ loop 6 invariant data-items: forall i int :: 0 <= i && i <= $idx ==> data[i] != nil && "id" in data[i] && data[i]["id"] == ids[i] && "type" in data[i] && data[i]["type"] == rel.ToType
+//@ assert before Marshal#0 one-data-iff: ("data" in s) == inList(listOf(relData, R_type($rh, r).Name), rel.FromName)
+//@ assert before Marshal#0 one-data-null: "data" in s && str(R_get($rh, r, rel.FromName)) == "" ==> s["data"] == nil
+//@ assert before Marshal#0 one-data-id: "data" in s && str(R_get($rh, r, rel.FromName)) != "" ==> s["data"] != nil && s["data"]["id"] == str(R_get($rh, r, rel.FromName)) && s["data"]["type"] == rel.ToType
+//@ assert before Marshal#1 many-data-iff: ("data" in s#1) == inList(listOf(relData, R_type($rh, r).Name), rel.FromName)
+//@ assert before Marshal#2 attrs-exact: forall a string :: (a in attrs) == (a in R_attrs($rh, r) && inList(fields, a))
+//@ assert before Marshal#2 attrs-values: forall a string :: a in attrs ==> attrs[a] == R_get($rh, r, a)
+//@ assert before Marshal#2 rels-exact: forall n2 string :: (n2 in rels) == (n2 in R_rels($rh, r) && inList(fields, n2))
+//@ assert before Marshal#2 members: plBase(mapPl, r) && "links" in mapPl
+//@ assert before Marshal#2 attributes-member: ("attributes" in mapPl) == (exists a string :: a in attrs)
+//@ assert before Marshal#2 relationships-member: ("relationships" in mapPl) == (exists n2 string :: n2 in rels)
+//@ assert before Marshal#1 many-data-kind: "data" in s#1 ==> dyn(s#1["data"]) == type[[]map[string]string] && len(sl(s#1["data"], type[[]map[string]string])) == len(sl(R_get($rh, r, rel.FromName), type[[]string]))
+//@ assert before Marshal#1 many-data-items: "data" in s#1 ==> (forall i int :: 0 <= i && i < len(sl(R_get($rh, r, rel.FromName), type[[]string])) ==> sl(s#1["data"], type[[]map[string]string])[i] != nil && "id" in sl(s#1["data"], type[[]map[string]string])[i] && sl(s#1["data"], type[[]map[string]string])[i]["id"] == sl(R_get($rh, r, rel.FromName), type[[]string])[i] && "type" in sl(s#1["data"], type[[]map[string]string])[i] && sl(s#1["data"], type[[]map[string]string])[i]["type"] == rel.ToType)
+//@ assert before Marshal#1 many-sorted: "data" in s#1 ==> (forall i int, j int :: 0 <= i && i <= j && j < len(sl(R_get($rh, r, rel.FromName), type[[]string])) ==> sl(R_get($rh, r, rel.FromName), type[[]string])[i] <= sl(R_get($rh, r, rel.FromName), type[[]string])[j])
